@@ -119,6 +119,23 @@ def gen(ctx):
         cs = rng.choice([2, 3, 4, 5, 7, 10, 19, 19, 25, 64])
         nfeat = rng.randint(0, 60)
         cases.append(_table(rng, nfeat, cs, tags=("random",)))
+    # (2b) caller-named optional columns (filename_column=, calcmass_column=, expmass_column=, rt_column=): the optional
+    #      columns carry unconventional names and the matching options are passed to read_pin
+    rng = ctx.sub("useropt")
+    ALT = {"filename": ("filename_column", "RunFile"), "calcmass": ("calcmass_column", "TheoMass"),
+           "expmass": ("expmass_column", "ObsMass"), "ret_time": ("rt_column", "RT")}
+    for k in range(200 if ctx.thorough else 60):
+        opt = [o for o in ["filename", "calcmass", "expmass", "ret_time"] if rng.random() < 0.65] or ["expmass"]
+        c = _table(rng, rng.randint(0, 12), rng.choice([3, 5, 19]), opt=opt, tags=("useropt-valid",))
+        ren = [o for o in opt if rng.random() < 0.7] or [opt[0]]
+        for o in ren:
+            key, new = ALT[o]
+            old_name = [x for x in c["cols"] if x.lower() == o][0]
+            c["cols"][c["cols"].index(old_name)] = new
+            c["data"][new] = c["data"].pop(old_name)
+            c["user_opts"][key] = new
+        c["tags"].append("renamed=" + "+".join(sorted(ren)))
+        cases.append(c)
     # (3) malformed
     rng = ctx.sub("malformed")
     for k in range(120 if ctx.thorough else 40):
@@ -316,7 +333,8 @@ def _wellformed(c):
         if low.count(o) > 1:
             return False
     if c.get("user_opts"):
-        return False
+        if "useropt-valid" not in c.get("tags", []) or not all(v in c["cols"] for v in c["user_opts"].values()):
+            return False
     lab = [x for x in c["cols"] if x.lower() == "label"][0]
     return all(v in (1, 0, -1, True, False) for v in c["data"][lab])
 
@@ -330,6 +348,11 @@ def oracle(c, i):
     r = i[1]
     cols = c["cols"]
     low = {x.lower(): x for x in cols}
+    uo = c.get("user_opts", {})
+    for k, key in (("filename", "filename_column"), ("calcmass", "calcmass_column"), ("expmass", "expmass_column"),
+                   ("ret_time", "rt_column")):
+        if uo.get(key):
+            low[k] = uo[key]          # the caller named the column that plays this role
     reserved = {low[k] for k in ("specid", "label", "scannr", "peptide", "proteins")}
     for k in ("filename", "calcmass", "expmass", "ret_time"):
         if k in low:
